@@ -120,23 +120,21 @@ Proof. intros H. unfold wrap. apply Z.mod_small. change (2 ^ 8) with 256. lia. Q
 Lemma slice_tail1 b t : m_slice (b :: t) 1 (GoSem.zlen (b :: t)) = Ret t.
 Proof. apply (m_slice_tail (b :: t) 1). cbn [length]. lia. Qed.
 
+(* both sides are split on the model's condition, then every comparison of the code is decided by lia: the polarity of the
+   test, the order of the branches, `b -= 32` vs `b - 32` do not matter *)
+Ltac first_byte b t :=
+  repeat autounfold with go2v;
+  replace (GoSem.zlen (b :: t) =? 0) with false by (symmetry; apply Z.eqb_neq; rewrite zlen_eq; cbn [length]; lia);
+  change (m_get (b :: t) 0) with (Ret (A := Z) b); cbn [bind];
+  match goal with |- _ = Ret (if ?c1 && ?c2 then _ else _) => destruct c1 eqn:E1; destruct c2 eqn:E2 end; zbools; cbn [andb];
+  decide_cmp; cbn [andb orb negb]; try reflexivity;
+  rewrite ?slice_tail1; cbn [bind]; rewrite wrap8_id by lia; unfold str_of_byte; decide_cmp; reflexivity.
+
 Theorem code_UcFirst s : g_UcFirst s = Ret (uc_first s).
-Proof.
-  unfold g_UcFirst. repeat autounfold with go2v. destruct s as [|b t]; [reflexivity|].
-  replace (GoSem.zlen (b :: t) =? 0) with false by (symmetry; apply Z.eqb_neq; rewrite zlen_eq; cbn [length]; lia).
-  change (m_get (b :: t) 0) with (Ret (A := Z) b). cbn [bind uc_first].
-  destruct ((97 <=? b) && (b <=? 122)) eqn:E; [|reflexivity]. zbools.
-  rewrite slice_tail1. cbn [bind]. rewrite wrap8_id by lia. unfold str_of_byte. ltb_true. reflexivity.
-Qed.
+Proof. unfold g_UcFirst. destruct s as [|b t]; [reflexivity|]. cbn [uc_first]. first_byte b t. Qed.
 
 Theorem code_LcFirst s : g_LcFirst s = Ret (lc_first s).
-Proof.
-  unfold g_LcFirst. repeat autounfold with go2v. destruct s as [|b t]; [reflexivity|].
-  replace (GoSem.zlen (b :: t) =? 0) with false by (symmetry; apply Z.eqb_neq; rewrite zlen_eq; cbn [length]; lia).
-  change (m_get (b :: t) 0) with (Ret (A := Z) b). cbn [bind lc_first].
-  destruct ((65 <=? b) && (b <=? 90)) eqn:E; [|reflexivity]. zbools.
-  rewrite slice_tail1. cbn [bind]. rewrite wrap8_id by lia. unfold str_of_byte. ltb_true. reflexivity.
-Qed.
+Proof. unfold g_LcFirst. destruct s as [|b t]; [reflexivity|]. cbn [lc_first]. first_byte b t. Qed.
 
 (* ================================================================ Sub *)
 (* the one int expression of Sub that can leave the int64 range: start+length (the hand model wraps it) *)
